@@ -1,3 +1,318 @@
+(** C17: specification and proofs about Model/SafeFS.v. *)
+From Coq Require Import List NArith Bool Lia.
 From AGH Require Import Base.Run Base.Bytes Base.PathClean Base.Glob Model.SafeFS.
-Lemma relative_never_file pats loc : is_abs loc = false -> reader pats loc = HttpGet loc.
+Import ListNotations.
+Local Open Scope N_scope.
+
+(** * The property's predicate *)
+
+(** Some configured pattern matches [p] (in the sense of filepath.Match). *)
+Definition safe (pats : list bytes) (p : bytes) : Prop :=
+  exists g, In g pats /\ glob_match g p = GOk true.
+
+(** An event is what [reader] chose for its location under the configured
+    patterns: every opening goes through the check. *)
+Definition ev_ok (w : world) (e : event) : Prop := snd e = reader (w_pats w) (fst e).
+
+(** * reader and validate_url *)
+
+Lemma any_match_yes pats p : any_match pats p = PmYes -> safe pats p.
+Proof.
+  induction pats as [|g r IH]; cbn [any_match]; [discriminate|].
+  destruct (glob_match g p) as [[|]| |] eqn:E; try discriminate.
+  - intros _. exists g. split; [left; reflexivity|exact E].
+  - intros H. destruct (IH H) as (g' & Hin & Hm). exists g'. split; [right; exact Hin|exact Hm].
+Qed.
+
+Lemma any_match_no pats p : any_match pats p = PmNo -> ~ safe pats p.
+Proof.
+  induction pats as [|g r IH]; cbn [any_match].
+  - intros _ (g & [] & _).
+  - destruct (glob_match g p) as [[|]| |] eqn:E; try discriminate.
+    intros H (g' & [<-|Hin] & Hm); [congruence|]. apply (IH H). exists g'. auto.
+Qed.
+
+Lemma path_matches_any_yes pats p :
+  path_matches_any pats p = PmYes ->
+  pats <> [] /\ is_abs p = true /\ clean p = p /\ safe pats p.
+Proof.
+  unfold path_matches_any. destruct pats as [|g r]; [discriminate|].
+  destruct (is_abs p && eqb_bytes (clean p) p) eqn:E; cbn [negb]; [|discriminate].
+  apply andb_true_iff in E as [E1 E2]. apply eqb_bytes_eq in E2.
+  intros H. repeat split; auto; [discriminate|apply any_match_yes, H].
+Qed.
+
+Lemma reader_open pats loc p :
+  reader pats loc = OpenFile p ->
+  is_abs loc = true /\ p = clean loc /\ safe pats p.
+Proof.
+  unfold reader. destruct (is_abs loc) eqn:Ea; cbn [negb]; [|discriminate].
+  destruct (path_matches_any pats (clean loc)) eqn:E; try discriminate.
+  intros [= <-]. apply path_matches_any_yes in E as (_ & _ & _ & Hs). auto.
+Qed.
+
+Lemma reader_relative pats loc : is_abs loc = false -> reader pats loc = HttpGet loc.
 Proof. unfold reader. intros ->. reflexivity. Qed.
+
+Lemma reader_no_patterns loc p : reader [] loc <> OpenFile p.
+Proof. unfold reader. destruct (is_abs loc); cbn; discriminate. Qed.
+
+Lemma reader_unsafe pats loc :
+  is_abs loc = true -> ~ safe pats (clean loc) -> exists k, reader pats loc = Reject k.
+Proof.
+  intros Ha Hn. destruct (reader pats loc) as [p|u|k] eqn:E; [| |eauto].
+  - apply reader_open in E as (_ & -> & Hs). contradiction.
+  - unfold reader in E. rewrite Ha in E. cbn in E.
+    destruct (path_matches_any pats (clean loc)); discriminate.
+Qed.
+
+(** The path handed to the matcher is always clean and absolute, so
+    pathMatchesAny's own panic (path not absolute/clean) cannot happen. *)
+Lemma reader_never_unclean loc :
+  is_abs loc = true ->
+  is_abs (clean loc) && eqb_bytes (clean (clean loc)) (clean loc) = true.
+Proof.
+  intros Ha. rewrite clean_is_abs, Ha, clean_idem. apply eqb_bytes_refl.
+Qed.
+
+Lemma validate_accepts_abs pats ex uok loc :
+  validate_url pats ex uok loc = None -> is_abs loc = true ->
+  ex (clean loc) = true /\ safe pats (clean loc).
+Proof.
+  unfold validate_url. intros H Ha. rewrite Ha in H.
+  destruct (ex (clean loc)); cbn [negb] in H; [|discriminate].
+  destruct (path_matches_any pats (clean loc)) eqn:E; try discriminate.
+  apply path_matches_any_yes in E as (_ & _ & _ & Hs). auto.
+Qed.
+
+Lemma validate_accepts_rel pats ex uok loc :
+  validate_url pats ex uok loc = None -> is_abs loc = false -> uok loc = true.
+Proof.
+  unfold validate_url. intros H Ha. rewrite Ha in H. destruct (uok loc); [reflexivity|discriminate].
+Qed.
+
+(** What validation accepts is exactly what the reader will open (same
+    predicate at add / set-url time and at download time). *)
+Lemma validate_reader_agree pats ex uok loc :
+  is_abs loc = true -> validate_url pats ex uok loc = None ->
+  reader pats loc = OpenFile (clean loc).
+Proof.
+  unfold validate_url, reader. intros Ha. rewrite Ha. cbn [negb].
+  destruct (ex (clean loc)); cbn [negb]; [|discriminate].
+  destruct (path_matches_any pats (clean loc)); try discriminate. reflexivity.
+Qed.
+
+(** * Events of the entry points *)
+
+Lemma update_event w f : fst (update w f) = (f_url f, reader (w_pats w) (f_url f)).
+Proof. reflexivity. Qed.
+
+Lemma update_ev_ok w f : ev_ok w (fst (update w f)).
+Proof. reflexivity. Qed.
+
+Lemma add_events w st loc white st' s evs :
+  add w st loc white = (st', s, evs) -> Forall (ev_ok w) evs.
+Proof.
+  unfold add. destruct (validate_url _ _ _ loc) as [k|].
+  - destruct k; intros [= <- <- <-]; constructor.
+  - destruct (url_exists st loc); [intros [= <- <- <-]; constructor|].
+    destruct (update w _) as [ev r] eqn:E.
+    assert (Hev : ev_ok w ev) by (change ev with (fst (ev, r)); rewrite <- E; apply update_ev_ok).
+    destruct r; intros [= <- <- <-]; repeat constructor; exact Hev.
+Qed.
+
+Lemma set_url_events w st old new en white st' s evs :
+  set_url w st old new en white = (st', s, evs) -> Forall (ev_ok w) evs.
+Proof.
+  unfold set_url. destruct (validate_url _ _ _ new) as [k|].
+  - destruct k; intros [= <- <- <-]; constructor.
+  - destruct (find_first old (get_list st white)) as [f|]; [|intros [= <- <- <-]; constructor].
+    destruct (negb (eqb_bytes (f_url f) new) && url_exists st new);
+      [intros [= <- <- <-]; constructor|].
+    destruct en; [|intros [= <- <- <-]; constructor].
+    destruct (negb (eqb_bytes (f_url f) new) || negb (Bool.eqb (f_enabled f) true));
+      [|intros [= <- <- <-]; constructor].
+    destruct (update w _) as [ev r] eqn:E.
+    assert (Hev : ev_ok w ev) by (change ev with (fst (ev, r)); rewrite <- E; apply update_ev_ok).
+    destruct r; intros [= <- <- <-]; repeat constructor; exact Hev.
+Qed.
+
+Lemma refresh_pass_events w l : Forall (ev_ok w) (snd (fst (refresh_pass w l))).
+Proof.
+  induction l as [|f r IH]; cbn [refresh_pass]; [constructor|].
+  destruct (f_enabled f).
+  - destruct (update w f) as [ev res] eqn:E.
+    assert (Hev : ev_ok w ev) by (change ev with (fst (ev, res)); rewrite <- E; apply update_ev_ok).
+    destruct (refresh_pass w r) as [[rs evs] dead]. cbn in IH.
+    destruct res; cbn; try (constructor; [exact Hev|exact IH]).
+    constructor; [exact Hev|constructor].
+  - destruct (refresh_pass w r) as [[rs evs] dead]. exact IH.
+Qed.
+
+Lemma refresh_events w st white st' s evs :
+  refresh w st white = (st', s, evs) -> Forall (ev_ok w) evs.
+Proof.
+  unfold refresh. pose proof (refresh_pass_events w (get_list st white)) as H.
+  destruct (refresh_pass w (get_list st white)) as [[rs evs'] dead]. intros [= <- <- <-]. exact H.
+Qed.
+
+Lemma step_events w st o st' s evs : step w st o = (st', s, evs) -> Forall (ev_ok w) evs.
+Proof.
+  destruct o; cbn; [apply add_events|apply set_url_events|apply refresh_events].
+Qed.
+
+Lemma run_events w ops : forall st,
+  Forall (fun out => Forall (ev_ok w) (snd out)) (snd (run w st ops)).
+Proof.
+  induction ops as [|o r IH]; intros st; cbn; [constructor|].
+  destruct (step w st o) as [[st1 s] evs] eqn:E. specialize (IH st1).
+  destruct (run w st1 r) as [st2 outs]. cbn in *. constructor; [|exact IH].
+  cbn. eapply step_events, E.
+Qed.
+
+(** * Main theorems *)
+
+(** For every world, every starting state (configured, planted or reached by
+    any earlier history) and every history of add / set-url / refresh: a file
+    is opened only for an absolute location, the file is the cleaned location,
+    and a configured pattern matches it. *)
+Theorem open_implies_safe w st ops s evs loc p :
+  In (s, evs) (snd (run w st ops)) -> In (loc, OpenFile p) evs ->
+  is_abs loc = true /\ p = clean loc /\ safe (w_pats w) p.
+Proof.
+  intros Hout Hev. pose proof (run_events w ops st) as H.
+  rewrite Forall_forall in H. specialize (H _ Hout). cbn in H.
+  rewrite Forall_forall in H. specialize (H _ Hev). unfold ev_ok in H. cbn in H.
+  symmetry in H. apply reader_open, H.
+Qed.
+
+Theorem no_patterns_no_file w st ops s evs loc p :
+  w_pats w = [] -> In (s, evs) (snd (run w st ops)) -> ~ In (loc, OpenFile p) evs.
+Proof.
+  intros Hp Hout Hev. destruct (open_implies_safe _ _ _ _ _ _ _ Hout Hev) as (_ & _ & g & Hin & _).
+  rewrite Hp in Hin. exact Hin.
+Qed.
+
+Theorem relative_never_file w st ops s evs loc src :
+  In (s, evs) (snd (run w st ops)) -> In (loc, src) evs -> is_abs loc = false ->
+  src = HttpGet loc.
+Proof.
+  intros Hout Hev Ha. pose proof (run_events w ops st) as H.
+  rewrite Forall_forall in H. specialize (H _ Hout). cbn in H.
+  rewrite Forall_forall in H. specialize (H _ Hev). unfold ev_ok in H. cbn in H.
+  rewrite H. apply reader_relative, Ha.
+Qed.
+
+(** Anything that does not start with '/' is not absolute: relative paths and
+    every scheme-prefixed string (file:, ftp:, ...). *)
+Lemma scheme_not_abs c rest : c <> slash -> is_abs (c :: rest) = false.
+Proof. intros H. cbn. apply N.eqb_neq, H. Qed.
+
+(** * Refresh re-checks *)
+
+Lemma refresh_pass_shape w l :
+  map fst (fst (fst (refresh_pass w l))) = l /\
+  Forall (fun x => snd x = UErr \/ snd x = snd (update w (fst x))) (fst (fst (refresh_pass w l))).
+Proof.
+  induction l as [|f r [IH1 IH2]]; cbn [refresh_pass]; [split; constructor|].
+  destruct (f_enabled f).
+  - destruct (update w f) as [ev res] eqn:E.
+    destruct (refresh_pass w r) as [[rs evs] dead]. cbn in IH1, IH2.
+    assert (Hres : res = snd (update w f)) by (rewrite E; reflexivity).
+    destruct res; cbn; try (split; [f_equal; exact IH1|constructor; [right; exact Hres|exact IH2]]).
+    (* panic: everything from here on is left alone *)
+    split.
+    + f_equal. rewrite map_map. cbn. apply map_id.
+    + constructor; [left; reflexivity|]. apply Forall_forall. intros x Hx.
+      apply in_map_iff in Hx as (g & <- & _). left. reflexivity.
+  - destruct (refresh_pass w r) as [[rs evs] dead]. cbn in *.
+    split; [f_equal; exact IH1|constructor; [left; reflexivity|exact IH2]].
+Qed.
+
+Lemma update_unsafe w f :
+  is_abs (f_url f) = true -> ~ safe (w_pats w) (clean (f_url f)) ->
+  snd (update w f) = UErr \/ snd (update w f) = UPanic.
+Proof.
+  intros Ha Hn. destruct (reader_unsafe _ _ Ha Hn) as [k Hk].
+  unfold update. rewrite Hk. cbn. destruct k; auto.
+Qed.
+
+(** The refresh path applies the same predicate immediately before opening:
+    an entry whose location is absolute but not safe (planted in the
+    configuration, or made unsafe by a configuration change) is never read;
+    it stays exactly as it was, and the event recorded for it is a rejection. *)
+Theorem recheck_at_refresh w st white st' s evs f :
+  refresh w st white = (st', s, evs) ->
+  In f (get_list st white) -> is_abs (f_url f) = true ->
+  ~ safe (w_pats w) (clean (f_url f)) ->
+  In f (get_list st' white) /\
+  forall src, In (f_url f, src) evs -> exists k, src = Reject k.
+Proof.
+  intros Hr Hin Ha Hn. split.
+  - unfold refresh in Hr. pose proof (refresh_pass_shape w (get_list st white)) as [H1 H2].
+    destruct (refresh_pass w (get_list st white)) as [[rs evs'] dead]. cbn in H1, H2.
+    injection Hr as <- _ _.
+    assert (Hl : get_list (set_list st white (map (apply_refresh dead) rs)) white =
+                 map (apply_refresh dead) rs) by (destruct white; reflexivity).
+    rewrite Hl. rewrite <- H1 in Hin. apply in_map_iff in Hin as ([f0 r0] & Hf & Hx). cbn in Hf. subst f0.
+    apply in_map_iff. exists (f, r0). split; [|exact Hx].
+    rewrite Forall_forall in H2. specialize (H2 _ Hx). cbn [fst snd] in H2.
+    pose proof (update_unsafe w f Ha Hn) as Hu'. unfold update in Hu'. cbn [snd] in Hu'.
+    destruct Hu' as [Hu|Hu]; rewrite Hu in H2; destruct H2 as [->| ->]; reflexivity.
+  - intros src Hev. pose proof (refresh_events _ _ _ _ _ _ Hr) as H.
+    rewrite Forall_forall in H. specialize (H _ Hev). unfold ev_ok in H. cbn in H. subst src.
+    apply reader_unsafe; assumption.
+Qed.
+
+(** * No traversal *)
+
+(** The opened path has no empty, "." or ".." element. *)
+Theorem opened_path_clean pats loc p :
+  reader pats loc = OpenFile p ->
+  p = [slash] \/
+  exists segs, segs <> [] /\ split slash p = [] :: segs /\ Forall real segs.
+Proof.
+  intros H. apply reader_open in H as (Ha & -> & _). apply clean_abs_no_dots, Ha.
+Qed.
+
+(** * The premises are satisfiable (concrete, computed) *)
+
+Definition ex_pats : list bytes := [[47;115;47;42]].                         (* /s/*  *)
+Definition ex_files : list (bytes * N) := [([47;115;47;97], 1); ([47;120;47;98], 2)].   (* /s/a  /x/b *)
+Definition ex_world : world :=
+  {| w_pats := ex_pats; w_files := ex_files; w_dirs := [[47;115]; [47;120]]; w_http := []; w_urlok := [] |}.
+Definition ex_loc_in : bytes := [47;115;47;46;47;97].                        (* /s/./a *)
+Definition ex_loc_out : bytes := [47;115;47;46;46;47;120;47;98].             (* /s/../x/b *)
+Definition ex_planted : state :=
+  {| s_block := [{| f_url := ex_loc_out; f_enabled := true; f_loaded := 0; f_sum := 0 |}]; s_allow := [] |}.
+
+Example ex_open : reader ex_pats ex_loc_in = OpenFile [47;115;47;97].
+Proof. reflexivity. Qed.
+Example ex_traversal_rejected : reader ex_pats ex_loc_out = Reject RUnsafe.
+Proof. reflexivity. Qed.
+Example ex_history :
+  snd (run ex_world ex_planted [OAdd ex_loc_in false; OAdd ex_loc_out false; ORefresh false]) =
+  [(SOk 0, [(ex_loc_in, OpenFile [47;115;47;97])]);
+   (SRejected RUnsafe, []);
+   (SOk 0, [(ex_loc_out, Reject RUnsafe); (ex_loc_in, OpenFile [47;115;47;97])])].
+Proof. reflexivity. Qed.
+Example ex_unsafe_planted : ~ safe ex_pats (clean ex_loc_out).
+Proof. apply any_match_no. reflexivity. Qed.
+
+(** With a class-free pattern, the opened path has exactly as many separators
+    as the pattern: "/safe/*" admits only paths directly inside a directory
+    at that depth, and since the path has no ".." element (above), no spelling
+    of a location gets from there to another directory. *)
+Theorem no_traversal pats loc p g :
+  reader pats loc = OpenFile p ->
+  (p = [slash] \/ exists segs, segs <> [] /\ split slash p = [] :: segs /\ Forall real segs) /\
+  (In g pats -> plain_pattern g = true -> glob_match g p = GOk true ->
+   count sep p = count sep g).
+Proof.
+  intros H. split; [eapply opened_path_clean, H|].
+  intros _ Hp Hm. apply glob_match_slashes; assumption.
+Qed.
+
+Example ex_traversal_star :
+  glob_match [47;115;47;42] [47;115;47;120;47;46;46;47;46;46;47;101] (* /s/* vs /s/x/../../e *) = GOk false.
+Proof. reflexivity. Qed.
